@@ -228,3 +228,31 @@ func strScanFrom(b []byte, k int, validate bool, nonVerb, nonCanon bool) strScan
 //@ at call parseHexUint16#0 assert ok == hex4OK(b, n+2) && (ok ==> v1 == hex4(b, n+2))
 //@ at call parseHexUint16#1 assert callResult1 == hex4OK(b, n+2) && (callResult1 ==> callResult0 == hex4(b, n+2))
 //@ at call utf8.FullRune#0 assert callResult == (utf8Len(b, n) != -1)
+
+// ---------------------------------------------------------------- AppendUnquote
+//
+// Thin contract (frame, aliasing, prefix, no panic): AppendUnquote only ever
+// appends to dst and never reads or writes outside src and dst's spare capacity.
+
+//@ extern utf8.AppendRune(p []byte, r rune) (result []byte)
+//@ trusted unicode/utf8: appends 1..4 bytes (the UTF-8 encoding of r, or of U+FFFD); documented behaviour
+//@ modifies p[len(p):cap(p)]
+//@ ensures sameOrFresh(result, p)
+//@ ensures len(result) >= len(p)+1 && len(result) <= len(p)+4
+//@ ensures vForall(0, len(p), func(i int) bool { return result[i] == old(p[i]) })
+
+//@ func AppendUnquote
+//@ property C03 C11 C16 C20
+//@ requires distinctArrays(dst, src)
+//@ modifies dst[len(dst):cap(dst)]
+//@ ensures alias: sameOrFresh(v, dst)
+//@ ensures length: len(v) >= len(dst)
+//@ ensures prefix: vForall(0, len(dst), func(k int) bool { return v[k] == old(dst[k]) })
+//@ ensures src-kept: unchanged(src)
+//@ loop 0 invariant range: 1 <= i && i <= n && n <= len(src) && len(dst) >= len(old(dst))
+//@ loop 0 invariant alias: sameOrFresh(dst, old(dst))
+//@ loop 0 invariant prefix: vForall(0, len(old(dst)), func(k int) bool { return dst[k] == old(dst[k]) })
+//@ loop 0 invariant src-kept: unchanged(src)
+//@ loop 0 decreases len(src) - n
+//@ loop 1 invariant range: 1 <= i && i <= n && n <= len(src) && n >= entry(n)
+//@ loop 1 decreases len(src) - n
